@@ -472,9 +472,13 @@ def e2e_everything(chk: core.Check):
     root = scratch_package()
     (root / "e2e_all.py").write_text(E2E_ALL)
 
-    def run(msg=False):
-        # the clean-up messages (PYBES3_NUMBA_CACHE_MSG=1) must not change what is removed
-        p = subprocess.run([core.PY, str(root / "e2e_all.py"), str(root)], capture_output=True, text=True, env=dict(e2e_env(), **({"PYBES3_NUMBA_CACHE_MSG": "1"} if msg else {})), timeout=1500)
+    def run(msg=False, prefix=False):
+        # the clean-up messages (PYBES3_NUMBA_CACHE_MSG=1) and a redirected bytecode cache (PYTHONPYCACHEPREFIX: numba keeps writing next to the
+        # sources) must not change what is removed
+        extra = {"PYBES3_NUMBA_CACHE_MSG": "1"} if msg else {}
+        if prefix:
+            extra["PYTHONPYCACHEPREFIX"] = str(root / "pyc-prefix")
+        p = subprocess.run([core.PY, str(root / "e2e_all.py"), str(root)], capture_output=True, text=True, env=dict(e2e_env(), **extra), timeout=1500)
         lines = [l for l in p.stdout.splitlines() if l.startswith("RESULT ")]
         if p.returncode != 0 or not lines:
             raise core.Infra("e2e_all process failed: " + p.stderr[-1200:])
@@ -493,7 +497,7 @@ def e2e_everything(chk: core.Check):
         e["center_x"] = e["center_x"] + 2.0
         e["points_y"] = e["points_y"] - 1.5
         np.savez(g / "emc_geom.npz", **e)
-        after = run(msg=(chk.seed % 2 == 1))                        # P2: next import after the update
+        after = run(msg=(chk.seed % 2 == 1), prefix=True)           # P2: next import after the update
         survivors = sorted(str(f.relative_to(root / "pybes3")) for f in (root / "pybes3").rglob("*.nb[ci]") if f.stat().st_mtime < (g / "mdc_geom.npz").stat().st_mtime)
         for f in list((root / "pybes3").rglob("*.nb[ci]")):
             f.unlink()
